@@ -45,4 +45,14 @@ man = {
     "notes": "See DESIGN.md. KNOWN_FINDINGS.txt lists recorded genuine defects (known:) and repaired ones (fixed:).",
 }
 json.dump(man, open(os.path.join(root, "MANIFEST.json"), "w"), indent=1)
+# Review F #6: a committed evidence file must come from a run that built every props module meta lists for the quick tier.
+for c in checks:
+    pid = c["property_id"]; m = json.load(open(os.path.join(root, "meta", pid + ".json")))
+    ep = os.path.join(root, "evidence", pid + ".json")
+    if not os.path.exists(ep):
+        print("STALE-EVIDENCE %s: no evidence file" % pid); continue
+    cmd = str(json.load(open(ep)).get("coverage", {}).get("checker_cmd", ""))
+    missing = [x for x in m.get("props_modules", ["DosModel.Props." + pid]) if (x + " ") not in (cmd + " ") and not cmd.endswith(x)]
+    if missing:
+        print("STALE-EVIDENCE %s: evidence checker_cmd lacks %s (re-run ./check %s quick and commit the evidence)" % (pid, ", ".join(missing), pid))
 print("claimed", len(checks), "not_applicable", len(na))
